@@ -590,7 +590,10 @@ class RecvWorld(World):
             return await t_async(i)
 
         self._NoResultError_ = NoResultError
-        broker.register_task(t_sync_global, task_name="t_sync_g")
+        if self.sc.get("executor") == "pickle":
+            # only where it is needed: registering one long-lived function object on thousands of brokers
+            # makes the process grow (about 13 KB per world)
+            broker.register_task(t_sync_global, task_name="t_sync_g")
         t_async.__module__ = "mc.recv_world"
         t_sync.__module__ = "mc.recv_world"
         t_annot.__module__ = "mc.recv_world"
